@@ -34,7 +34,7 @@ def mapping(sc):
 
     def c(o):
         o = list(o)
-        return PFX + tuple(o[:1] + [1] + o[1:]) if len(o) >= 2 else PFX + tuple(o)
+        return cur_pfx() + tuple(o[:1] + [1] + o[1:]) if len(o) >= 2 else cur_pfx() + tuple(o)
 
     def a(arcs):
         r = absoid(arcs)
@@ -67,9 +67,26 @@ def build_agent(sc, events, proto):
         events.append(dict(e="resp", es=fields["es"],
                            vbs=[[absoid(o), -1 if v == EOMV else 0 if v == NULL else dec_int(v[2:])] for o, v in fields["vbs"]]))
     ag.on_request, ag.on_reply = on_request, on_reply
+    if sc.get("idonly"):
+        # C07: the k-th reply is an ordinary answer that carries another request-id
+        def perturb_id(req, f, _k=sc["idonly"]["at"], _d=sc["idonly"]["delta"]):
+            if ag.nreq == _k + ag.ndisco:
+                f["reqid"] += _d
+            return f
+        ag.perturb = perturb_id
     if sc.get("err"):
         # scripted error-status reply to the k-th request (C08: walk-style operations propagate it)
         k, es, ei = sc["err"]["at"], sc["err"]["es"], sc["err"]["ei"]
+        if sc["err"].get("foreign"):
+            # ... and the reply belongs to another community / protocol version
+            def perturb(req, f, _k=sc["err"]["at"], _w=sc["err"]["foreign"]):
+                if ag.nreq == _k + ag.ndisco:
+                    if _w == "comm":
+                        f["community"] = b"another"
+                    else:
+                        f["version"] = 1 - f["version"]
+                return f
+            ag.perturb = perturb
         idd = sc["err"].get("iddelta", 0)       # C07: an error response that carries another request-id is not this request's answer
         ag.script = lambda req: dict(es=es, ei=ei, iddelta=idd, vbs=[(o, NULL) for o, _, _ in req["vbs"]]) if ag.nreq == k + ag.ndisco else None
     return ag
@@ -163,9 +180,61 @@ async def run_scenario(sc):
     return dict(scenario=sc, events=events)
 
 
+def _rows_event(rows, py):
+    out = []
+    for r in rows:
+        cells = []
+        for k, v in sorted(r.items()):
+            if k == "0":
+                continue
+            pv = v if py else v.value
+            cells.append([int(k), pv if isinstance(pv, int) else -2])
+        out.append(dict(idx=[int(x) for x in str(r["0"]).split(".")] if r["0"] != "" else [], cells=cells))
+    return dict(e="rows", rows=out)
+
+
+async def run_pair(sc):
+    """C16 under a schedule: table(entry) and bulktable(table) of the same table running concurrently on ONE client (the sender yields to the
+    event loop before every answer, so their requests interleave).  -> two traces, judged like the sequential ones."""
+    from puresnmp import Client
+    events = []
+    proto = sc.get("proto", "v2c")
+    ag = build_agent(sc, events, proto)
+    conc_, absoid_ = mapping(sc)
+
+    async def sender(endpoint, packet, timeout=None, retries=None):
+        for _ in range(sc.get("yields", 1)):
+            await asyncio.sleep(0)
+        return ag.handle(bytes(packet))
+    c = make_client(ag, proto, sender=sender)
+    entry, table = OID(oidstr(conc_(sc["entry"]))), OID(oidstr(conc_(sc["entry"][:-1])))
+    res = await asyncio.gather(c.table(entry), c.bulktable(table, bulk_size=sc["bulk"]), c.table(entry), return_exceptions=True)
+    out = []
+    for api, r in zip(("table", "bulktable", "table"), res):
+        ev = [dict(e="call", api=api, roots=sc["roots"], bulk=sc["bulk"] if api == "bulktable" else 0, errors="strict")]
+        if isinstance(r, BaseException):
+            ev.append(dict(e="end", outcome=exc_name(r), snmp=is_snmp_error(r)))
+        else:
+            ev += [_rows_event(r, False), dict(e="end", outcome="done")]
+        out.append(dict(scenario=dict(sc, api=api, pair=True), events=ev))
+    return out
+
+
+async def run_placed(sc):
+    if sc.get("api") == "pair":
+        with use_prefix(sc.get("pfx")), debug_logging(bool(sc.get("debuglog"))):
+            return await run_pair(sc)
+    with use_prefix(sc.get("pfx")), debug_logging(bool(sc.get("debuglog"))):
+        return await run_scenario(sc)
+
+
 def run_all(scenarios):
     async def main():
-        return [await run_scenario(sc) for sc in scenarios]
+        out = []
+        for sc in scenarios:
+            r = await run_placed(sc)
+            out.extend(r if isinstance(r, list) else [r])
+        return out
     return asyncio.run(main())
 
 
